@@ -202,6 +202,8 @@ NEEDED = ["T=1", "T=2", "T=3", "T:4..20", "T:20..1e3", "T:1e3..1e5", "T:1e5..2^2
 
 
 def run(ctx):
+    from .. import wtests
+    wtests.run(ctx)
     mon = install(ctx)
     rng = ctx.rng
     n = ctx.budget(70_000, 700_000)
@@ -216,6 +218,9 @@ def run(ctx):
         if accum == "clear" and rng.random() < 0.3:
             accum = G.fresh_clear(rng)
             classes.append("'clear' passed as a string built at run time")
+        if rng.random() < 0.004:
+            from .. import noise
+            noise.burst(ctx, rng, exclude=('stepper', 'legacy-stepper'))
         if rng.random() < 0.01:
             from plotink import ebb_calc as _ec
             G.failed_call(rng, rng.choice((_ec.move_dist_t3, _ec.rate_t3)), 5 if rng.random() < 0.5 else 4)
@@ -240,6 +245,7 @@ def run(ctx):
     ctx.need("monitor:rate_t3 evaluated", 30_000)
     ctx.need("monitor:zero-jerk coincidence with move_dist_lt", 1000)
     ctx.need("oracle self-check (literal ticking)", 1000)
+    ctx.need("history: after calls to other library functions", 150)
     contracts.uninstall_all()
 
 
